@@ -7,6 +7,11 @@ from .ref import RefModel, RefError
 RTOL = 1e-8
 
 
+def quant(obs, v):
+    """declared value as it is representable in the precision of the build (float32 builds store float32)"""
+    return float(np.float32(v)) if obs.get('f32') else float(v)
+
+
 class Mismatch(Exception):
     """Property violation found by an oracle (message = symptom)."""
 
@@ -17,13 +22,14 @@ def compile_vf(spec, vectorize=False, backend='default', style=None, step_size=1
         template, _ = build.build_python(spec, style=style)
     kw.setdefault('float_precision', 'float64')
     kw.setdefault('in_place', False)
+    f32 = kw['float_precision'] == 'float32'
     if spec is not None and spec.get('node_values'):
         kw.setdefault('node_values', build.node_values_kw(spec))
     import os as _os
     kw.setdefault('clear', _os.environ.get('VERIF_KEEP') != '1')   # public reset after each compile: checks other than C13 must not depend on leaks
     func, args, names, smap = template.get_run_func('vf', step_size=step_size, backend=backend, vectorize=vectorize,
                                                     verbose=False, **kw)
-    return {'func': func, 'args': list(args), 'names': list(names), 'smap': dict(smap), 'template': template}
+    return {'func': func, 'args': list(args), 'names': list(names), 'smap': dict(smap), 'template': template, 'f32': f32}
 
 
 def _positions_from_smap(entry):
@@ -38,7 +44,7 @@ def locate_states(obs, ref, check_smap=True):
     and cover the state vector, and (when the initial value is unique in the model) value fingerprinting must agree.
     Vectorized builds (entries are ranges): value fingerprinting inside the range that the map reports.
     Raises Mismatch on layout violations."""
-    y0 = np.asarray(obs['args'][1], dtype=float).ravel()
+    y0 = np.asarray(to_np(obs['args'][1]), dtype=float).ravel()
     smap = obs['smap']
     seen = {}
     for name, ent in smap.items():
@@ -53,11 +59,11 @@ def locate_states(obs, ref, check_smap=True):
         raise Mismatch(f"layout: state map does not cover positions {missing} of the state vector")
     counts = {}
     for key in ref.state_keys:
-        counts[float(ref.val[key])] = counts.get(float(ref.val[key]), 0) + 1
+        counts[quant(obs, ref.val[key])] = counts.get(quant(obs, ref.val[key]), 0) + 1
     pos = {}
     used = {}
     for key in ref.state_keys:
-        v = float(ref.val[key])
+        v = quant(obs, ref.val[key])
         name = '/'.join(key)
         hits = [i for i in range(len(y0)) if y0[i] == v]
         if name in smap and len(_positions_from_smap(smap[name])) == 1:
@@ -96,8 +102,8 @@ def check_arg_values(obs, ref, vectorized):
         key = ('/'.join(parts[:-2]), parts[-2], parts[-1])
         if key not in ref.kind or ref.kind[key] not in ('const', 'in'):
             continue
-        arr = np.asarray(val, dtype=float).ravel()
-        exp = float(ref.val[key])
+        arr = np.asarray(to_np(val), dtype=float).ravel()
+        exp = quant(obs, ref.val[key])
         n_checked += 1
         if not vectorized:
             if arr.size != 1 or arr[0] != exp:
@@ -109,7 +115,9 @@ def check_arg_values(obs, ref, vectorized):
 
 
 def is_param_array(a):
-    a = np.asarray(a)
+    if callable(a):
+        return False
+    a = to_np(a)
     return a.dtype.kind == 'f'
 
 
@@ -119,7 +127,7 @@ def perturb_params(obs, ref, rnd, frac=1.0):
     p = ref.p0()
     byval = {}
     for k, v in p.items():
-        byval.setdefault(float(v), []).append(k)
+        byval.setdefault(quant(obs, v), []).append(k)
     start = max([i for i, n in enumerate(obs['names']) if n in ('t', 'y', 'dy', 'hist')]) + 1
     new_args = list(obs['args'][:start])
     pairs = [(e['src'], e['tgt']) for e in ref.edges]
@@ -130,7 +138,7 @@ def perturb_params(obs, ref, rnd, frac=1.0):
         if callable(a) or not is_param_array(a):
             new_args.append(a)
             continue
-        arr = np.array(a, dtype=np.asarray(a).dtype, copy=True)
+        arr = np.array(to_np(a), copy=True)
         flat = arr.reshape(-1)
         is_edge_arg = '/in_edge_' in name
         for i in range(flat.size):
@@ -147,22 +155,45 @@ def perturb_params(obs, ref, rnd, frac=1.0):
             if rnd.random() > frac:
                 continue
             if v not in newval:
-                newval[v] = round(v * rnd.uniform(0.5, 1.6) + rnd.uniform(-0.2, 0.2), 6)
+                newval[v] = quant(obs, round(v * rnd.uniform(0.5, 1.6) + rnd.uniform(-0.2, 0.2), 6))
             flat[i] = newval[v]
             n_slots += 1
-        new_args.append(arr)
+        new_args.append(like(a, arr))
     for v, nv in newval.items():
         p[byval[v][0]] = nv
     return new_args, p, n_slots
 
 
+def to_np(a):
+    """numpy view/copy of a numpy / torch / jax array"""
+    if hasattr(a, 'detach'):
+        return a.detach().cpu().numpy()
+    return np.asarray(a)
+
+
+def like(template, arr):
+    """convert numpy array to the array type (and dtype) of `template`"""
+    if hasattr(template, 'detach'):
+        import torch
+        return torch.as_tensor(np.asarray(arr), dtype=template.dtype)
+    if type(template).__module__.startswith('jax'):
+        import jax.numpy as jnp
+        return jnp.asarray(np.asarray(arr), dtype=template.dtype)
+    return np.asarray(arr, dtype=np.asarray(template).dtype)
+
+
 def call_vf(obs, args, y, t=0):
     f = obs['func']
     try:
-        out = f(t, y, *args[2:])
+        yb = like(args[1], y)
+        out = f(t, yb, *args[2:])
+        if out is None:            # in-place convention of the Fortran subroutine: the result is in the dy argument
+            out = args[obs['names'].index('dy')]
+    except Mismatch:
+        raise
     except Exception as e:
         raise Mismatch(f"loud: generated function raised {type(e).__name__}: {e}")
-    return np.array(out, dtype=float, copy=True).ravel()
+    return np.array(to_np(out), dtype=float, copy=True).ravel()
 
 
 def ref_rhs_checked(ref, ydict, p, mp, t=0.0, delayed=None, inputs=None, hist=None):
@@ -179,13 +210,13 @@ def ref_rhs_checked(ref, ydict, p, mp, t=0.0, delayed=None, inputs=None, hist=No
     return out, ill
 
 
-def compare_vf(obs, ref, rnd, mp, n_points=6, vectorized=False, mech=None, perturb=True):
+def compare_vf(obs, ref, rnd, mp, n_points=6, vectorized=False, mech=None, perturb=True, rtol=None):
     """Full C01 observation: layout, argument values, derivative at probe points with perturbed parameters."""
     mech = mech if mech is not None else {}
     pos = locate_states(obs, ref)
     mech['layout_checks'] = mech.get('layout_checks', 0) + 1
     mech['arg_value_checks'] = mech.get('arg_value_checks', 0) + check_arg_values(obs, ref, vectorized)
-    y0 = np.asarray(obs['args'][1], dtype=float).ravel()
+    y0 = np.asarray(to_np(obs['args'][1]), dtype=float).ravel()
     n = len(y0)
     hidden = [i for i in range(n) if i not in set(pos.values())]
     worst = 0.0
@@ -196,6 +227,8 @@ def compare_vf(obs, ref, rnd, mp, n_points=6, vectorized=False, mech=None, pertu
         else:
             args, p = list(obs['args']), ref.p0()
         y = y0.copy() if pt == 0 else np.array([rnd.gauss(0, 1) for _ in range(n)])
+        if obs.get('f32'):
+            y = np.asarray(y, dtype=np.float32).astype(float)
         ydict = {k: float(y[i]) for k, i in pos.items()}
         for ck in ref.chain_states:
             ydict[ck] = 0.0
@@ -215,7 +248,7 @@ def compare_vf(obs, ref, rnd, mp, n_points=6, vectorized=False, mech=None, pertu
             e = exp[key]
             err = abs(got[i] - e)
             mech['derivatives_compared'] = mech.get('derivatives_compared', 0) + 1
-            if not err <= RTOL * max(1.0, abs(e)):
+            if not err <= (rtol or RTOL) * max(1.0, abs(e)):
                 raise Mismatch(f"derivative of {'/'.join(key)} (position {i}) at probe point {pt}: PyRates {got[i]!r} vs "
                                f"reference {e!r} (abs err {err:.3e}); params perturbed={pt > 0}")
             worst = max(worst, err)
